@@ -215,30 +215,37 @@ Proof. intros d nowsec t e Hd Ha Ht. apply (admitted_not_expired_skew d nowsec t
 Print Assumptions C14_admitted_point_in_live_group.
 
 (* -- node level: one pass of the retention service -- *)
-(* When the catalogue satisfies XInv and the node of partition pt agrees with it (NodeOK, XNode.v: every shard and
-   index of the node is the one the catalogue lists for this partition with the catalogue's span, every shard's index
-   is on the node, shard ids unique), a pass at clock reading `now` deletes an index only if EVERY shard of the node
-   that refers to it is deleted by the same pass - and that shard is expired under its policy's duration in force.
-   (NodeOK is a precondition of the step, not an invariant: a node may keep a shard whose group has already left the
-   catalogue; such shards are covered by C14_safety's "duration last learnt" clause and by the direct oracle.) *)
-Theorem C14_index_deleted_only_with_its_shards : forall rep w pt now,
+(* The pass reads the clock anew for each decision: `now` is the reading of its shard decisions, `now2` (later) that of
+   its index decisions. When the catalogue satisfies XInv and the node of partition pt agrees with it (NodeOK, XNode.v:
+   every shard and index of the node is the one the catalogue lists for this partition with the catalogue's span, every
+   shard's index is on the node, shard ids unique), an index deleted by the pass is used only by shards that are
+   EXPIRED AT THE INSTANT OF THAT DECISION under their policy's duration in force, and each of them that was already
+   expired when the shard decisions were taken is deleted by the same pass (with one clock reading: all of them).
+   So no unexpired data ever loses its index; a shard that expires between the two readings keeps its files until the
+   next pass. (NodeOK is a precondition of the step; NodeAgree below is the part of it that is an invariant.) *)
+Theorem C14_index_deleted_only_with_its_shards : forall rep w pt now now2,
   XInv (x_cat w) -> NodeOK w pt ->
-  forall X, In X (l_ixs (snd (xtick rep w pt now))) ->
+  forall X, In X (l_ixs (snd (xtick rep w pt now now2))) ->
   forall s, In s (x_shards w) -> xs_pt s = pt -> xs_ix s = X ->
-    In (xs_id s) (l_shards (snd (xtick rep w pt now))) /\
     exists sg cs, In sg (c_sgs (x_cat w)) /\ In cs (sg_shards sg) /\ cs_id cs = xs_id s /\ sg_end sg = xs_end s /\
-                  expired (pol_d (x_cat w) (sg_rp sg)) (sg_end sg) now = true.
+                  expired (pol_d (x_cat w) (sg_rp sg)) (sg_end sg) now2 = true /\
+                  (expired (pol_d (x_cat w) (sg_rp sg)) (sg_end sg) now = true ->
+                   In (xs_id s) (l_shards (snd (xtick rep w pt now now2)))).
 Proof. exact xtick_index_victims. Qed.
 Print Assumptions C14_index_deleted_only_with_its_shards.
 
 (* the hypotheses are satisfiable and the conclusion is not vacuous: a reachable world (two shard groups sharing one
-   index, one shard loaded, one on disk) that satisfies NodeOK, in which a pass deletes the index and both shards *)
+   index, one shard loaded, one on disk) that satisfies NodeOK; a pass whose two clock readings straddle the expiry of
+   the second shard deletes the first shard and the index now, the second shard only at the next pass *)
 Example C14_node_ok_example :
   let H := 3600000000000 in
   let w := fst (xrun true true (xworld0 [{| xp_id := 1; xp_d := H; xp_sgd := H; xp_igd := 2 * H |}] 1)
                   [XCreate 1 (472140 * H); XCreate 1 (472141 * H); XMat 1 true; XMat 2 false]) in
   NodeOK w 0 /\ XInv (x_cat w) /\
-  l_ixs (snd (xtick true w 0 (472142 * H + H + 1))) = [1] /\ l_shards (snd (xtick true w 0 (472142 * H + H + 1))) = [1; 2].
+  l_ixs (snd (xtick true w 0 (472142 * H + H + 1) (472142 * H + H + 1))) = [1] /\
+  l_shards (snd (xtick true w 0 (472142 * H + H + 1) (472142 * H + H + 1))) = [1; 2] /\
+  l_ixs (snd (xtick true w 0 (472142 * H + H) (472142 * H + H + 1))) = [1] /\
+  l_shards (snd (xtick true w 0 (472142 * H + H) (472142 * H + H + 1))) = [1].
 Proof.
   cbv zeta. split; [|split; [apply XInv_xrun; apply XInv_init|vm_compute; auto]].
   match goal with |- NodeOK ?w _ => let v := eval vm_compute in w in change w with v end.
